@@ -150,3 +150,47 @@ Definition spec_ok (cls : Z) (tmpl : string) (m : meth) (l : Z) (json : bool) (o
           end
       end
   end.
+
+(* ---- POST /devices/{name}/events: the function's OWN authentication ------------------------------------------------
+   The wrapper level of this function is none (above); the property is kept by the function itself: it serves only a
+   caller that proves knowledge of the slave's admin password, i.e. presents a device-origin token whose HS256 signature
+   verifies under the SHA-256 of that password.  Everything else is answered 401 and leaves the slave untouched; an
+   unknown slave name is 404 (decided first).  Hand-written from the property statement ("the slave-event push
+   authenticates by its own token") and the comment in slaves/api/funcs/devices.py; the 400 for a slave that is polled
+   or listened to is the function's documented behaviour ("events are only for permanently offline slaves").
+
+   A presented credential is described by facts the harness knows by construction of the header: *)
+Record cred := {
+  c_present : bool;     (* an Authorization header is present *)
+  c_jwt : bool;         (* it is "Bearer <decodable JWT>" *)
+  c_iss : bool;         (* iss = "qToggle" *)
+  c_device : bool;      (* ori = "device" (consumer tokens, whatever their level or key, are not device tokens) *)
+  c_fresh : bool;       (* iat absent or within the allowed clock skew *)
+  c_slave_key : bool    (* HS256 signature made with the slave's admin password hash *)
+}.
+
+Record slave_st := {
+  s_exists : bool;      (* a slave of that name is registered *)
+  s_has_hash : bool;    (* it has an admin password hash (without one nothing can verify) *)
+  s_poll : bool;        (* polling enabled *)
+  s_listen : bool       (* listening enabled *)
+}.
+
+Definition token_verifies (s : slave_st) (c : cred) : bool :=
+  c_present c && c_jwt c && c_iss c && c_device c && c_fresh c && s_has_hash s && c_slave_key c.
+
+Inductive ev_out := EvServed | EvStatus (st : Z).
+
+Definition events_spec (s : slave_st) (c : cred) : ev_out :=
+  if negb (s_exists s) then EvStatus 404
+  else if negb (token_verifies s c) then EvStatus 401
+  else if s_poll s || s_listen s then EvStatus 400
+  else EvServed.
+
+(* oracle: o = ORan when the event reached the slave object (handle_event), OStatus otherwise *)
+Definition events_spec_ok (s : slave_st) (c : cred) (o : obs) : bool :=
+  match events_spec s c, o with
+  | EvServed, ORan _ => true
+  | EvStatus a, OStatus b => a =? b
+  | _, _ => false
+  end.
